@@ -480,12 +480,13 @@ class GenA:
             if val > B:
                 val = B / 2
             return fmt_quantity(rng, val, unit)
+        near = self.p.get('near_rel', F(1, 10 ** 5))
         if cls == 'near_in':
-            return fmt_quantity(rng, B * (1 - F(1, 10 ** 5)), unit, digits=14)
+            return fmt_quantity(rng, B * (1 - near), unit, digits=14)
         if cls == 'exact':
             return fmt_quantity(rng, B, unit, digits=16)
         if cls == 'near_out':
-            return fmt_quantity(rng, B * (1 + F(1, 10 ** 5)), unit, digits=14)
+            return fmt_quantity(rng, B * (1 + near), unit, digits=14)
         if cls == 'far_out':
             return fmt_quantity(rng, round_sig(rng, float(B) * rng.uniform(1.2, 20), self.round), unit)
         if cls == 'negative':
@@ -689,7 +690,7 @@ class GenA:
         else:
             kwargs = {'concentration': concs if ns > 1 else concs[0], 'quantity': quants if ns > 1 else quants[0]}
         solv = solvent
-        if rng.random() < 0.25:
+        if rng.random() < self.p.get('p_container_solvent', 0.25):
             t = self.pick('container')
             if t is not None:
                 m, _ = self.latest_model(*t)
